@@ -62,6 +62,12 @@ func c06Menu() []injCall {
 		{Name: "Query(proposal all @0)", Query: "proposal", QKey: ""},
 		{Name: "Query(gov_params @0)", Query: "gov_params", QKey: ""},
 		{Name: "Query(stakes/total_power @0)", Query: "stakes/total_power", QKey: ""},
+		// withdrawals by every account that earns rewards in the history (the block that issues an account's FIRST reward included)
+		{Name: "CheckTx(withdraw U0 1)", Check: t(wdr("U0", "1"))},
+		{Name: "CheckTx(withdraw V1 1)", Check: t(wdr("V1", "1"))},
+		{Name: "CheckTx(withdraw V3 1)", Check: t(wdr("V3", "1"))},
+		{Name: "CheckTx(withdraw U1 1)", Check: t(wdr("U1", "1"))},
+		{Name: "CheckTx(withdraw V0 2^255)", Check: t(wdr("V0", "2^255"))},
 	}
 }
 
@@ -99,10 +105,10 @@ func (c *c06) Meta() engine.Meta {
 		LevelName: "preemption bound P = number of injected CheckTx/Query calls",
 		Technique: "schedule exploration at ABCI-call granularity (all placements of up to P injected calls into the gaps between consensus calls) on the real application, twin oracle against the quiet replica",
 		Rule: "consensus thread: the dense 8-block history (staking, delegation, unstaking, proposal, votes, withdraw, transfers, contract deploy/call) in genesis variants g3 and g4L (4 equal validators, stake limiter live at 33%/33%); " +
-			"mempool/query thread: 23 calls (CheckTx of: a duplicate of the next / previous block transaction, staking to two delegatees, a new self-stake, three unstakings, proposal, a vote by a validator that votes only later, withdraw, transfer of the whole balance, setdoc, contract call, bad nonce, garbage; Query of account, delegatee, stakes, reward, proposal, gov_params, total power at height 0); " +
+			"mempool/query thread: 28 calls (CheckTx of: a duplicate of the next / previous block transaction, staking to two delegatees, a new self-stake, three unstakings, proposal, a vote by a validator that votes only later, withdraw by every account that earns rewards (1 and 2^255), transfer of the whole balance, setdoc, contract call, bad nonce, garbage; Query of account, delegatee, stakes, reward, proposal, gov_params, total power at height 0); " +
 			"a schedule places the injected calls into the gaps before/after BeginBlock, after each DeliverTx, after EndBlock and after Commit (Commit itself is one ABCI call and Tendermint holds the mempool lock across it). " +
 			"P<=1: every (gap, call) pair; P=2: every pair of placements drawn from the state-touching CheckTx entries (quick: within blocks 1-6, second call in the same or one of the next 3 gaps; thorough: all entries, all gaps, second call within the next 6 gaps). " +
-			"Oracle: every DeliverTx / EndBlock / Commit response of the loaded replica equals the quiet replica's; after every Commit the mempool overlays of all seven ledgers are empty. " +
+			"Oracle: every DeliverTx / EndBlock / Commit response of the loaded replica equals the quiet replica's; the complete committed state of EVERY height (all seven ledgers read through read-only accessors - the reward ledger enters the app hash only at every 10th height) equals the quiet replica's; after every Commit the mempool overlays of all seven ledgers are empty. " +
 			"distinct_nontrivial = schedules in which at least one injected CheckTx was accepted (code 0).",
 		Assumptions: []string{"ABCI calls are atomic with respect to each other (one client mutex in node/client.go); verified separately by a free-running -race pass, not by this check"},
 	}
@@ -252,7 +258,7 @@ func (c *c06) RunDesc(desc json.RawMessage) engine.Result {
 		g := gaps[in.Gap]
 		names = append(names, fmt.Sprintf("%s at block %d %s#%d", c.menu[in.Call].Name, g.Block+1, g.Kind, g.Idx))
 	}
-	hk := &sim.Hooks{NoStates: true}
+	hk := &sim.Hooks{}
 	hk.Gap = func(ch *sim.Chain, hh int64, kind string, idx int) {
 		b := int(hh - 1)
 		if kind == "post-commit" && overlayMsg == "" {
@@ -331,6 +337,22 @@ func (c *c06) RunDesc(desc json.RawMessage) engine.Result {
 			Detail: fmt.Sprintf("injected: %v\n first differing consensus response (call #%d):\n loaded: %s\n quiet : %s", names, i, x, y), Case: desc})
 		return res
 	}
+	// the complete committed state of every height (the reward ledger enters the app hash only at every 10th height)
+	for i, st := range a.States {
+		if i < len(ref.States) && st.JSON() != ref.States[i].JSON() {
+			d := sim.DiffStates(st, ref.States[i])
+			comp := "state"
+			if len(d) > 0 {
+				comp = strings.SplitN(strings.TrimPrefix(d[0], "/"), "/", 2)[0]
+				comp = strings.SplitN(comp, ":", 2)[0]
+			}
+			res.Outcome = "state-differs"
+			res.Violations = append(res.Violations, engine.Violation{Property: "C06", Kind: "committed-state-changed-by-traffic:" + comp, Site: site(),
+				Detail: fmt.Sprintf("injected: %v\n state committed at height %d differs from the quiet replica's (loaded != quiet): %v", names, i+1, tailOf(d, 6)), Case: desc})
+			return res
+		}
+	}
+	res.Count("heights_state_compared", len(a.States))
 	if overlayMsg != "" {
 		res.Outcome = "overlay-not-empty"
 		res.Violations = append(res.Violations, engine.Violation{Property: "C06", Kind: "mempool-overlay-survives-commit", Site: strings.SplitN(overlayMsg, ":", 2)[0],
